@@ -354,7 +354,40 @@ ExecIT(x, i) == [x EXCEPT !.s.cpsr = SetIT(@, i.fc * 16 + i.mask)]
 (* is UNPREDICTABLE; an accepted instruction reaches the emulator's (documented, unimplemented) coprocessor hooks.   *)
 (* With the Virtualization Extensions, HCPTR traps are not specified here (envelope).                                *)
 CPACRcp(s, cp) == Slice(s.sys.CPACR, 2 * cp + 1, 2 * cp)
+\* CP14 / CP15 (B1.? Coproc_Accepted, cases 14 and 15): which instruction forms exist in these spaces at all
+\* (everything else is UNDEFINED), then the emulator's documented not-implemented decode hooks.  The "2" forms
+\* (cond = 1111 / Thumb T2) do not exist here.  Traps to Hyp mode (HSTR, HCR.TIDCP, HSTR.TTEE) and the User-mode
+\* rules for the ThumbEE registers (opc1 = 6: I do not vouch for the TEECR / TEEHBR selector bit from memory) are
+\* not specified: envelope only.
+ExecCPSys(x, i) ==
+  LET s == x.s  w == i.w
+      uncond == Slice(w, 31, 28) = 15
+      mcrmrc == Slice(w, 27, 24) = 14 /\ Bit(w, 4) = 1 /\ ~uncond
+      virtNS == s.cfg.sec /\ s.cfg.virt /\ (~IsSecure(s)) /\ Mode(s) # HYP
+  IN IF i.cp = 15 THEN
+       LET tworeg == Slice(w, 27, 21) = 98 /\ ~uncond                         \* MCRR / MRRC
+           crn    == IF tworeg THEN Slice(w, 3, 0) ELSE Slice(w, 19, 16)
+       IN IF (~mcrmrc) /\ ~tworeg THEN Raise(x, "undef")
+          ELSE IF virtNS THEN Unpred(NotImpl(x, "cp15-hyp-traps"))
+          ELSE IF crn = 4 THEN Unpred(NotImpl(x, "cp15-crn4"))                   \* c4 is unallocated: UNPREDICTABLE
+          ELSE NotImpl(x, "cp15_instr_decode")
+     ELSE
+       LET mrrc   == Slice(w, 27, 20) = 197 /\ ~uncond                        \* MRRC only: there is no MCRR to CP14
+           ldcstc == Slice(w, 27, 25) = 6 /\ ~uncond
+           opc1   == IF mcrmrc THEN Slice(w, 23, 21) ELSE IF mrrc THEN Slice(w, 7, 4) ELSE 0
+       IN IF ~(mcrmrc \/ mrrc \/ ldcstc) THEN Raise(x, "undef")
+          ELSE IF mrrc /\ opc1 # 0 THEN Raise(x, "undef")
+          ELSE IF (~mcrmrc) /\ (~mrrc) /\ Slice(w, 15, 12) # 5 THEN Raise(x, "undef")    \* LDC / STC: only CRd = c5 (DBGDTRRXint / TXint)
+          ELSE CASE opc1 = 0 -> NotImpl(x, "cp14_debug_instr_decode")
+                 [] opc1 = 1 -> NotImpl(x, "cp14_trace_instr_decode")
+                 [] opc1 = 7 -> NotImpl(x, "cp14_jazelle_instr_decode")
+                 [] opc1 = 6 -> IF Slice(w, 7, 5) # 0 \/ Slice(w, 3, 1) # 0 \/ Slice(w, 15, 12) = 15 \/ Mode(s) = USR \/ virtNS
+                                THEN Unpred(NotImpl(x, "cp14-thumbee"))
+                                ELSE NotImpl(x, "coproc")                     \* accepted; the transfer itself is a hook
+                 [] OTHER -> Raise(x, "undef")
+
 ExecCoproc(x, i) ==
+  IF i.cp \in {14, 15} THEN ExecCPSys(x, i) ELSE
   LET s == x.s
       nsdeny == s.cfg.sec /\ (~IsSecure(s)) /\ Bit(s.sys.NSACR, i.cp) = 0
       viahyp == s.cfg.virt /\ Mode(s) = HYP
